@@ -11,6 +11,7 @@ R: the real compiler's bytecode (after RemoveDuplicates) is the artefact TLC che
 """
 import json
 
+import largelib
 import semlib
 import vlib
 
@@ -104,6 +105,8 @@ def run(ck):
         else:
             ck.traces += 1
     ck.evaluations = nfn + len(pcases)
+    # functions beyond 64 KiB and pools beyond 255 constants: structure checked by the harness, behaviour by a closed form
+    largelib.judge(ck, quick)
     ck.extra.update({"programs": len(progs), "functions": nfn, "vm_steps_checked": steps, "variable_instruction_families": fam})
     if pcases:
         c = pcases[len(pcases) // 3]
